@@ -183,7 +183,8 @@ def src_hash(fn):
 
 
 class Verifier:
-    def __init__(self, registry, goal_timeout_ms=60000, keep_smt2=False):
+    def __init__(self, registry, goal_timeout_ms=60000, keep_smt2=False, pid=None):
+        self.pid = pid
         self.registry = registry
         self.goal_timeout_ms = goal_timeout_ms
         self.keep_smt2 = keep_smt2
@@ -239,9 +240,39 @@ class Verifier:
 
     # -- function contract -----------------------------------------------------------------------
     def verify_function(self, c):
+        res = self._verify_function(c, '')
+        for vname, over in c.variants.items():
+            if self.pid is not None and over.get('props') and self.pid not in over['props']:
+                continue          # this scenario belongs to another property's check
+            import copy as _copy
+            c2 = _copy.copy(c)
+            c2.params = dict(c.params)
+            c2.loops = dict(c.loops)
+            c2.variants = {}
+            for k, v in over.items():
+                if k == 'props':
+                    continue
+                if k in ('params', 'loops'):
+                    getattr(c2, k).update(v)
+                else:
+                    setattr(c2, k, v)
+            r2 = self._verify_function(c2, f'[{vname}]')
+            for n, o in r2.obls.items():
+                res.obls[n] = o
+            res.paths += r2.paths
+            res.covered += r2.covered
+            res.secs += r2.secs
+            res.solver_secs += r2.solver_secs
+            res.queries += r2.queries
+            res.used |= r2.used
+            if r2.engine_error and not res.engine_error:
+                res.engine_error = f'[{vname}] {r2.engine_error}'
+        return res
+
+    def _verify_function(self, c, suffix):
         res = UnitResult(c.qualname, 'function')
         res.src_sha = src_hash(c.fn)
-        short = c.fn.__qualname__
+        short = c.fn.__qualname__ + suffix
         reg = self.registry
         cc = reg.class_contract_of(c)
         sig = inspect.signature(c.fn)
@@ -295,6 +326,8 @@ class Verifier:
                 if gk.startswith('ghost_'):
                     ns_old[gk] = gv
             outcome = None
+            it.loops_override = (c.fn, c.loops)
+            it.obl_suffix = suffix
             it.top_frames = []
             try:
                 result = it.run_body(c.fn, dict(bound))
@@ -371,7 +404,7 @@ class Verifier:
             res.engine_error = 'vacuity: no normal exit is reachable under the contract'
         for k, lc in c.loops.items():
             if lc.invariant is not None and not lc.never_iterates and not res.engine_error and \
-                    not any(f'/loop{k}.preserve' in n for n in res.obls):
+                    not any(f'/loop{k}.preserve' in n or f'/loop{k}.body' in n for n in res.obls):
                 res.engine_error = (f'vacuity: the body of loop {k} was never verified on a '
                                     f'feasible path')
         for name, _ in c.covers:
